@@ -64,6 +64,7 @@ fn base_case(msgs: Vec<(Value, u64)>, max_msg_len: usize, stream_len: usize) -> 
         wfault: None,
         rfault: None,
         monitored: false,
+        buf_cap: None,
         stream: None,
         recv_retries: 0,
         send_after_error: false,
@@ -104,6 +105,11 @@ fn build(ctx: &Ctx, vt: &VT, idx: u64, rng: &mut Rng) -> Built {
     c.wchunks = gen_chunks(rng, a, largest);
     c.rchunks = gen_chunks(rng, a, largest);
     c.monitored = rng.chance(1, 2);
+    if c.monitored && rng.chance(1, 2) {
+        // any capacity that can hold the largest message (the io() constructors use twice max_msg_len)
+        let l = largest.max(1);
+        c.buf_cap = Some(*rng.pick(&[l, l + 1, l + a, l + l / 2, 2 * l - 1, 2 * l, 3 * l]));
+    }
     // async parameters
     c.capacity = *rng.pick(&[1usize, 2, 3, a, 17, 64, 1000]);
     let sched_len = rng.range(0, 200);
@@ -151,6 +157,7 @@ fn case_desc(c: &IoCase) -> J {
         .set("write_fault", J::s(format!("{:?}", c.wfault)))
         .set("read_fault", J::s(format!("{:?}", c.rfault)))
         .set("monitored", J::Bool(c.monitored))
+        .set("buffer_capacity", J::s(format!("{:?}", c.buf_cap)))
         .set("capacity", J::i(c.capacity))
         .set("wake_driven", J::Bool(c.wake_driven))
         .set("stream", J::s(c.stream.as_ref().map(|s| match J::bytes(&s[..s.len().min(96)]) { J::Str(x) => x, _ => String::new() }).unwrap_or_default()))
@@ -267,6 +274,9 @@ pub fn run(ctx: &Ctx, rep: &mut Report) {
                 c.wchunks = chunks;
             }
             c.monitored = combo % 4 < 2;
+            if combo % 4 == 0 {
+                c.buf_cap = Some(largest.max(1) + (combo as usize / 4) % 3);
+            }
             c.capacity = 1 + (combo % 5) as usize;
             c.max_polls = 100_000;
             c.wake_driven = combo % 3 == 0;
@@ -446,7 +456,7 @@ pub fn run(ctx: &Ctx, rep: &mut Report) {
         }
         rep.key(mix(
             hash_str(vt.name)
-                ^ mix(hash_str(&format!("{:?}{:?}{}{}", case.wchunks, case.rchunks, case.capacity, case.wake_driven)))
+                ^ mix(hash_str(&format!("{:?}{:?}{}{}{:?}", case.wchunks, case.rchunks, case.capacity, case.wake_driven, case.buf_cap)))
                 ^ mix(hash_bytes(&case.schedule)).rotate_left(3)
                 ^ mix(hash_bytes(&case.pend_w)).rotate_left(11)
                 ^ mix(hash_str(&format!("{:?}{:?}", case.wfault, case.rfault)))
@@ -531,6 +541,9 @@ pub fn run(ctx: &Ctx, rep: &mut Report) {
                     format!("{}: received sequence differs from the sent one at #{:?} ({} sent, {} events)", vt.name, first_bad.map(|x| x.0), case.msgs.len(), t.recvs.len()),
                     cj(&t),
                 );
+            }
+            if case.buf_cap.is_some() {
+                rep.count("non-default-buffer-capacity");
             }
             if case.monitored && mode != "threaded" {
                 if t.mon.misaligned_windows > 0 {
